@@ -253,14 +253,17 @@ META = {
               'missing-directory pass) returned False; no invocation is dropped or short-circuited; within one directory the handler is invoked exactly for the items that do not verify, once each, in order '
               '(C07_directory_log); over the whole tree every invocation is justified by a failed check of that very path with exactly the differences handed over (C07_only_offending_reported: "for no other path"). '
               'Conversely every entry of the merged entry dictionary and every file found by the walk whose check fails is handed to the handler, whichever directory it belongs to (C07_every_offending_path_reported, Proofs/WalkComplete.v). '
-              'PARTIAL: that two different directory visits never report one path (distinctness of joined paths) is compared on generated trees (complete ordered call log, model vs /repo).',
+              'No path is handed to the handler twice - the relative paths of different directory visits never coincide, the trailing pass reports entries of directories that were not visited - for the verification of a sub-directory of a tree whose '
+              'directory listings have unique, non-empty, slash-free names (C07_each_path_reported_at_most_once; Proofs/Once.v, Proofs/DictWf.v: the merged dictionary has unique directory keys and unique slash-free names per directory). '
+              'PARTIAL: for the top directory (start path empty) the same is compared on generated trees (complete ordered call log, model vs /repo).',
    level_note='About Model/Loader.v walk_verify/verify_dir; the lazy-all() defect D1 was repaired in /repo (fix commit) and the model has no laziness.'),
  'C16': dict(engine='coq+tree', design_ref='DESIGN.md section 5 C16',
    technique='Coq termination proof of the walk over arbitrary cyclic inode graphs (pigeonhole on recorded directory identities) + enumeration of small symlink graphs on a real filesystem under a watchdog',
    level_text='Proved in Coq for every finite inode graph (any directory symlinks, any cycles, any names without slashes): each of the three walks - verification, the scan for unregistered Manifests, update / create - never depends on its fuel once it is '
               'at least |directory identities|+2 - it terminates by loop detection or by exhausting the tree (C16_terminates, including the start-directory key quirk); a directory whose '
               'identity is recorded for an ancestor raises the symlink-loop error and a directory/file on another device raises the cross-device error, whatever the handler answers. '
-              'Which links lead back to an ancestor and "unless under an IGNOREd path" are compared on enumerated graphs (with an independent cycle oracle), for all three walks.',
+              'Through the whole walk: a verification of a sub-directory that returns has reached no directory whose identity is that of a directory passed on the way to it - a link back to an ancestor is never walked into and accepted (C16_no_loop_is_walked_into, Proofs/NoLoop.v). '
+              'Which links lead back to an ancestor (the kernel identity law) and "unless under an IGNOREd path" are compared on enumerated graphs (with an independent cycle oracle), for all three walks.',
    level_note='About Model/Loader.v walk_verify; termination of the real os.walk is covered by a 20 s watchdog per run; the kernel identity law (st_dev, st_ino) is assumed.'),
  'C03': dict(engine='coq+tree', design_ref='DESIGN.md section 5 C03',
    technique='Coq theorems about the entry refresh and the save step + differential update/save/re-verify runs with an independent exactness oracle',
